@@ -409,7 +409,7 @@ class RLockCtx(_picklable_lock_base()):
 
     def __enter__(self):
         self.lock.acquire()
-        self.entered += 1
+        self.entered = getattr(self, 'entered', 0) + 1     # (never fail between acquire and release)
 
     def __exit__(self, *exc):
         self.lock.release()
@@ -1080,7 +1080,8 @@ def fingerprint(rig):
         mods.append(d)
     fp['models'] = mods
     if hasattr(m, 'get_markup_config'):
-        mk = copy.deepcopy(m.get_markup_config())
+        # (called on the class: introspection must not take the machine's locks)
+        mk = copy.deepcopy(type(m).get_markup_config(m))
         mk.pop('models', None)
         fp['markup'] = json.loads(json.dumps(mk, default=str))
     return json.loads(json.dumps(fp, default=str))
@@ -1493,6 +1494,8 @@ def judge_midevent(case, p, sn, fail, stats, reqs=None):
     if fpC != sn['fp'] or recs(C) != sn['recs']:
         fail('monitor', 'structure-mid-event', '%s: copy differs from the original at that instant: %s'
              % (tag, diff_paths(sn['fp'], fpC)), midevent_signature(case, scope_left, ident_left, 'structure'))
+        if any(fpC['opts'].get(k) != sn['fp']['opts'].get(k) for k in ('machine_context', 'model_contexts')):
+            return      # other kinds of locks than the original's: driving this copy may deadlock
     # a control at rest in the same model states
     try:
         K = build(case)
@@ -1684,6 +1687,10 @@ def run_case_inner(case, want_requests=True):
         fpC = fingerprint(C)
         if fpC != fpA:
             fail('monitor', 'structure', 'prefix %d: copy differs structurally: %s' % (p, diff_paths(fpA, fpC)))
+            if any(fpC['opts'].get(k) != fpA['opts'].get(k) for k in ('machine_context', 'model_contexts')):
+                # the copy's contexts are not the original's kind of lock: driving it may deadlock (a plain lock
+                # where a re-entrant one was) — the structural verdict stands, no behavioural phases on this copy
+                continue
         if recs(C) != recA:
             fail('monitor', 'recordings', 'prefix %d: recorded callback history not carried over' % p)
         # control in the same state, never pickled
@@ -2322,6 +2329,10 @@ class C15(runner.Check):
                 'against a control AT REST with the same configuration and the same model states: the unfinished part of '
                 'the event lives on the call stack of the original, not in the machine (reading of "reacts like the '
                 'original" for a snapshot that has no call stack)',
+                'user context managers given as machine_context / model_context are part of the configuration, including a '
+                'subclass of the library\'s PicklableLock that overrides only __init__ (its documented contract is '
+                '"reinitialized unlocked when unpickled"); a copy whose contexts are another kind of lock than the '
+                'original\'s is reported structurally and not driven any further (it may deadlock)',
                 'a copy is itself a machine in a reachable state: copy-of-copy(-of-copy) chains are judged like first '
                 'copies; pickling THROUGH a model (pickle.dumps(model), [models], (model, machine)) is pickling the '
                 'machine and is judged the same way, except that the graph of the root model may lack the active mark '
